@@ -27,6 +27,22 @@ def rand_sel(rng, h):
     return {"re": "^h%d$" % h}
 
 
+def rand_set_sel(rng, n):
+    """A selector naming several hosts (regex over h0..h<n-1>), in DNS registration order."""
+    r = rng.random()
+    if r < 0.35:
+        return {"re": "^h"}
+    if r < 0.7:
+        k = rng.randrange(n)
+        return {"re": "^h[0-%d]$" % k}
+    k = rng.randrange(n)
+    return {"re": "^h[%d-%d]$" % (k, n - 1)}
+
+
+def rand_sel_or_set(rng, h, n, p_set=0.22):
+    return rand_set_sel(rng, n) if rng.random() < p_set else rand_sel(rng, h)
+
+
 def for_pairs(A, B):
     return [(a, b) for a in A for b in B if a != b]
 
@@ -205,6 +221,8 @@ def timeline(case, obs):
                     tl.append(("tcp_connect", h, cmd[1], cmd[2], k))
                 elif cmd[0] == "tcp_write":
                     tl.append(("tcp_write", h, cmd[1], cmd[2], k))
+                elif cmd[0] == "tcp_shutdown":
+                    tl.append(("tcp_shutdown", h, cmd[1], None, k))
                 else:
                     for a, b in for_pairs(sel_hosts(cmd[1], n), sel_hosts(cmd[2], n)):
                         tl.append(("call", cmd[0], a, b, (k + 1) * tick))
@@ -268,9 +286,7 @@ def gen_partition_script(rng, nsteps=None, fail=None, nhosts=None):
         ctl, hosts = [], {}
         if rng.random() < 0.45:
             a, b = rng.sample(range(n), 2)
-            ctl.append([rng.choice(calls), rand_sel(rng, a), rand_sel(rng, b)])
-        if rng.random() < 0.1:
-            ctl.append([rng.choice(calls), {"re": "^h[0-%d]$" % rng.randrange(n)}, rand_sel(rng, rng.randrange(n))])
+            ctl.append([rng.choice(calls), rand_sel_or_set(rng, a, n), rand_sel_or_set(rng, b, n)])
         if rng.random() < 0.3:
             ctl.append(["links"])
         rand_sends(rng, n, ids, hosts, [0, 1, 1, 2, 3])
@@ -278,7 +294,7 @@ def gen_partition_script(rng, nsteps=None, fail=None, nhosts=None):
             h = rng.randrange(n)
             a, b = rng.sample(range(n), 2)
             lst = hosts.setdefault(str(h), [])
-            lst.insert(rng.randrange(len(lst) + 1), [rng.choice(calls), rand_sel(rng, a), rand_sel(rng, b)])
+            lst.insert(rng.randrange(len(lst) + 1), [rng.choice(calls), rand_sel_or_set(rng, a, n), rand_sel_or_set(rng, b, n)])
         steps.append({"ctl": ctl, "hosts": hosts})
     drain = (cfg["max_ms"] * 1000) // cfg["tick_us"] + 3
     for _ in range(drain):
@@ -333,12 +349,16 @@ def gen_hold_script(rng, nhosts=None):
         r = rng.random()
         if r < 0.3:
             a, b = rng.sample(range(n), 2)
-            ctl.append(["hold", rand_sel(rng, a), rand_sel(rng, b)])
-            held.add((min(a, b), max(a, b)))
+            sa, sb = rand_sel_or_set(rng, a, n), rand_sel_or_set(rng, b, n)
+            ctl.append(["hold", sa, sb])
+            for x, y in for_pairs(sel_hosts(sa, n), sel_hosts(sb, n)):
+                held.add((min(x, y), max(x, y)))
         elif r < 0.5 and held:
             a, b = rng.choice(sorted(held))
-            ctl.append(["release", rand_sel(rng, a), rand_sel(rng, b)])
-            held.discard((a, b))
+            sa, sb = rand_sel_or_set(rng, a, n, 0.15), rand_sel_or_set(rng, b, n, 0.15)
+            ctl.append(["release", sa, sb])
+            for x, y in for_pairs(sel_hosts(sa, n), sel_hosts(sb, n)):
+                held.discard((min(x, y), max(x, y)))
         if rng.random() < 0.5:
             ctl.append(["links"])
         if held and rng.random() < 0.5:
@@ -413,8 +433,10 @@ def gen_latency_script(rng, nhosts=None):
         if r < 0.2:
             a, b = rng.sample(range(n), 2)
             v = rng.choice([0, 1, 2, 3, 7, 15])
-            ctl.append(["set_link_latency", rand_sel(rng, a), rand_sel(rng, b), v])
-            per[(min(a, b), max(a, b))] = [v, v]
+            sa, sb = rand_sel_or_set(rng, a, n), rand_sel_or_set(rng, b, n)
+            ctl.append(["set_link_latency", sa, sb, v])
+            for x, y in for_pairs(sel_hosts(sa, n), sel_hosts(sb, n)):
+                per[(min(x, y), max(x, y))] = [v, v]
         elif r < 0.35:
             a, b = rng.sample(range(n), 2)
             key = (min(a, b), max(a, b))
@@ -441,6 +463,7 @@ def gen_tcp_script(rng, flavour):
     partitions (flavour 'partition') or holds (flavour 'hold') come and go."""
     cfg = base_cfg(rng, nhosts=rng.choice([2, 2, 3]), fail=0.0 if flavour == "hold" else rng.choice([0.0, 0.0, 0.05, 0.2]))
     cfg["tcp"] = True
+    cfg["tcp_cap"] = rng.choice([2, 3, 4, 64])      # >= connectors per listener (a fuller SYN queue is a documented panic)
     n = cfg["nhosts"]
     ids = IdGen()
     steps = [WARMUP()]
@@ -458,14 +481,20 @@ def gen_tcp_script(rng, flavour):
         steps.append({"ctl": [], "hosts": {}})
     calls = (["partition", "partition_oneway", "partition_oneway", "repair", "repair_oneway", "repair_oneway"]
              if flavour == "partition" else ["hold", "release"])
+    closed = set()
     for k in range(rng.randrange(6, 16)):
         ctl, hosts = [], {}
         if rng.random() < 0.45:
             a, b = rng.sample(range(n), 2)
             ctl.append([rng.choice(calls), rand_sel(rng, a), rand_sel(rng, b)])
         for c, (a, b) in conns.items():
-            for _ in range(rng.choice([0, 1, 1, 2])):
+            if c in closed:
+                continue
+            for _ in range(rng.choice([0, 1, 1, 2, cfg["tcp_cap"] if cfg["tcp_cap"] < 8 else 3])):
                 hosts.setdefault(str(a), []).append(["tcp_write", c, ids.next()])
+            if flavour == "hold" and rng.random() < 0.12:
+                hosts.setdefault(str(a), []).append(["tcp_shutdown", c])
+                closed.add(c)
         if rng.random() < 0.2:
             h = rng.randrange(n)
             a, b = rng.sample(range(n), 2)
@@ -473,6 +502,12 @@ def gen_tcp_script(rng, flavour):
             lst.insert(rng.randrange(len(lst) + 1), [rng.choice(calls), rand_sel(rng, a), rand_sel(rng, b)])
         steps.append({"ctl": ctl, "hosts": hosts})
     if flavour == "hold":
+        # close what is still open while (possibly) held, then release everything
+        hosts = {}
+        for c, (a, b) in conns.items():
+            if c not in closed and rng.random() < 0.6:
+                hosts.setdefault(str(a), []).append(["tcp_shutdown", c])
+        steps.append({"ctl": [], "hosts": hosts})
         steps.append({"ctl": [["release", {"re": "^h"}, {"re": "^h"}]], "hosts": {}})
     for _ in range((cfg["max_ms"] * 1000) // cfg["tick_us"] + 4):
         steps.append({"ctl": [], "hosts": {}})
@@ -521,7 +556,16 @@ def tcp_oracle(case, obs, flavour):
     held_at = {}
     cur = {}
     tick = case["cfg"]["tick_us"] * 1000
-    for st, h, i, frm in obs.get("tcp_recv", []):
+    eofs = {}
+    ports = {}
+    for st, h, what, cid, detail in obs.get("tcp_ev", []):
+        if what == "connected" and detail:
+            ports[cid] = int(detail)
+    closed_conns = [cid for st, h, what, cid, detail in obs.get("tcp_ev", []) if what == "closed"]
+    for rec in obs.get("tcp_recv", []):
+        if rec[2] in ("eof", "err"):
+            eofs[(rec[3], rec[1], rec[4] if len(rec) > 4 else None)] = rec[2]
+    for st, h, i, frm in [r[:4] for r in obs.get("tcp_recv", []) if r[2] not in ("eof", "err")]:
         got[i] = got.get(i, 0) + 1
         order.setdefault((frm, h), []).append(i)
         if i in forbidden:
@@ -532,6 +576,13 @@ def tcp_oracle(case, obs, flavour):
         for i, (cid, st) in wrote.items():
             if got.get(i, 0) != 1:
                 out.append(("TCP frame %d accepted by the writer at step %d was read %d times after release and drain" % (i, st, got.get(i, 0)), None))
+        for cid in closed_conns:
+            if cid in conns and cid in ports:
+                a, b = conns[cid]
+                e = eofs.get((a, b, ports[cid]))
+                if e != "eof":
+                    out.append(("TCP connection %d (h%d->h%d) was closed by the writer with no unread data, the link "
+                                "released and drained, but the reader saw %s instead of end-of-file" % (cid, a, b, e or "nothing"), None))
         for (frm, h), ids_ in order.items():
             for cid, (a, b) in conns.items():
                 if (a, b) == (frm, h):
